@@ -169,6 +169,7 @@ def check_case(res, case):
                         write_codes(view, newv)
                         state['n'] += 1
                 simi, outi = run(inj)
+                res.evals += 1
                 res.count('injections')
                 if state['n'] != 1:
                     res.violation(_key(case, f'inject-count-l{li}'), case, f'line {li} was offered to the callback {state["n"]} times {nl}')
